@@ -313,6 +313,7 @@ def run(ctx):
     meta = {}
     singles = ctx.generate('MC_JoinObj', 'MC_JoinObj_gen1.cfg' if ctx.quick else 'MC_JoinObj_gen1t.cfg')
     check_enumeration(singles, 'MC_JoinObj_gen1', False)
+    singles.sort(key=lambda h: json.dumps(h, sort_keys=True))        # TLC's workers print in any order
     catalogue = {}
     for h in singles:
         catalogue.setdefault(h['shape'], {})[json.dumps(h['steps'][-1], sort_keys=True)] = h['steps'][-1]
@@ -323,12 +324,12 @@ def run(ctx):
     for h in singles:
         run_history(h, 'single', obs, meta)
     sims = []
-    for cfg, num, depth in ([('MC_JoinObj_sim.cfg', 50, 7)] if ctx.quick else [('MC_JoinObj_sim.cfg', 600, 7), ('MC_JoinObj_sim3.cfg', 300, 9)]):
+    for cfg, num, depth in ([('MC_JoinObj_sim.cfg', 50, 7)] if ctx.quick else [('MC_JoinObj_sim.cfg', 400, 7), ('MC_JoinObj_sim3.cfg', 200, 9)]):
         sims += ctx.generate('MC_JoinObj', cfg, simulate=num, depth=depth, seed=ctx.seed + 1, workers=1)
     check_enumeration(sims, 'MC_JoinObj_sim', True)
     for h in sims:
         run_history(h, 'history', obs, meta)
-    for i in range(150 if ctx.quick else 3000):
+    for i in range(150 if ctx.quick else 2000):
         run_history(rand_history(ctx.rng, catalogue), 'random_history', obs, meta)
     for k, m in meta.items():
         st = m['hist']['steps'][m['step']]
